@@ -1,5 +1,6 @@
 import Rsbdd.Driver.BddCases
 import Rsbdd.Driver.FormulaCases
+import Rsbdd.Driver.ParseCases
 import Std.Data.HashSet
 
 namespace Rsbdd
@@ -10,6 +11,8 @@ def dispatch (fields : List String) : Verdict :=
   | "C01" :: rest => handleC01 rest
   | "C06" :: rest => handleC06 rest
   | "C09" :: rest => handleC09 rest
+  | "C08" :: rest => handleC08 rest
+  | "C12" :: rest => handleC12 rest
   | "C02" :: rest => handleC02 rest
   | "C03" :: rest => handleC03 rest
   | "C04" :: rest => handleC04 rest
